@@ -904,14 +904,25 @@ func chIsClosed(ch <-chan struct{}) bool {
 // the channel to be sent.
 func (c *Client) q(m *spb.ModifyRequest) {
 	c.awaiting.RLock()
-	defer c.awaiting.RUnlock()
-
 	if chIsClosed(c.sendExitCh) {
+		c.awaiting.RUnlock()
 		return
 	}
-	// The modify channel is buffered, and only read by the sender goroutine. Do
-	// not block forever (holding the awaiting lock, which blocks AwaitConverged)
-	// if the sender exits whilst the buffer is full.
+	select {
+	case c.qs.modifyCh <- m:
+		c.awaiting.RUnlock()
+		return
+	default:
+	}
+	// The modify channel is buffered, only read by the sender goroutine, and
+	// currently full. Do not wait for the sender whilst holding the awaiting
+	// lock: the sender takes the same lock for every Send, and an AwaitConverged
+	// caller that is waiting for the write lock stops it from getting it, so
+	// that the sender, this call and AwaitConverged would wait for each other
+	// forever. The operations in m are already in the pending queue, hence the
+	// client cannot be considered converged whilst m waits here. Do not block
+	// forever if the sender exits whilst the buffer is full.
+	c.awaiting.RUnlock()
 	select {
 	case c.qs.modifyCh <- m:
 	case <-c.sendExitCh:
